@@ -82,6 +82,9 @@ def measure(ctx):
     recs = read_ndjson(out)
     ph = {r["phase"]: r for r in recs if r["ev"] == "Measure"}
     ph["tails"] = [r for r in recs if r["ev"] == "Tails"][0]
+    probe = [r for r in recs if r["ev"] == "SaveProbe"][0]
+    if probe["yields"] not in (True, False):
+        raise ToolError("measure: the didSave probe did not finish: %s" % probe)
     w_open, h_open = ph["open"]["worker"], ph["open"]["handler"]
     full = ph["open"]["checks"]
     if not (full >= 1 and ph["change"]["checks"] == full and ph["change2"]["checks"] == full):
@@ -94,7 +97,7 @@ def measure(ctx):
         "FixNotify": "T.create" in h_open and "T.check" in h_open and h_open.index("T.create") < h_open.index("T.check"),
         "FixOpen": "H.setCompiling" in h_open,
         "FixClear": "W.pickupClear" in w_open,
-        "FixSave": "S.busy" in ph["save"]["handler"],
+        "FixSave": probe["yields"],
     }
     tails = ph["tails"]
     if len(tails["full"]) != full or len(tails["cached"]) != cached:
@@ -203,13 +206,13 @@ def simulated_schedules(ctx, c, name, num, depth, seed):
 
 # ------------------------------------------------------------------------------------ replaying
 def replay_and_validate(ctx, scheds, c, label, shards=4):
-    """Enforce the schedules on the real server, validate the observed events with Trace_LspSched.
-    Returns (#schedules accepted, #events accepted, list of PROP findings)."""
+    """Enforce the schedules on the real server (in `shards` parallel processes), then validate all
+    observed events with Trace_LspSched in one TLC run (re-run after a rejected schedule).
+    Returns (#schedules accepted, #events accepted, list of (schedule id, PROP verdict))."""
     if not scheds:
         return 0, 0, []
     import concurrent.futures
-    parts = [scheds[i::shards] for i in range(shards)]
-    parts = [p for p in parts if p]
+    parts = [p for p in (scheds[i::shards] for i in range(shards)) if p]
 
     def run_part(ip):
         i, part = ip
@@ -226,61 +229,56 @@ def replay_and_validate(ctx, scheds, c, label, shards=4):
         obs_parts = list(ex.map(run_part, enumerate(parts)))
     by_id = {s["id"]: s for s in scheds}
     tc = dict(c)
-    tc.update(changes=3, saves=1, waiters=2)
+    tc.update(changes=3, saves=1, waiters=2)      # the trace spec knows every thread a schedule may use
     cfg = write_cfg(ctx, "trace-" + label, cfg_text(tc, "TraceSpec", postcondition="Accepted"))
-    ok_scheds, ok_events, props = 0, 0, []
-    for pi, events in enumerate(obs_parts):
-        # split into schedules so that a rejection names one schedule and the rest is still validated
-        groups, cur = [], None
+    groups, cur = [], None
+    for events in obs_parts:
         for e in events:
             if e["ev"] == "Reset":
                 cur = [e]
                 groups.append(cur)
             else:
                 cur.append(e)
-        pos = 0
-        while pos < len(groups):
-            chunk = groups[pos:]
-            flat = [e for g in chunk for e in g]
-            tp = os.path.join(ctx.work, "trace-%s-%d.ndjson" % (label, pi))
-            write_ndjson(tp, flat)
-            tr = ctx.tlc_trace("Trace_LspSched", cfg, tp, name="trace-%s-%d-%d" % (label, pi, pos), count=False)
-            # property verdicts printed by the trace spec (line number -> schedule)
-            starts, n = [], 0
-            for g in chunk:
-                starts.append(n + 1)
-                n += len(g)
+    ok_scheds, ok_events, props = 0, 0, []
+    pos = 0
+    while pos < len(groups):
+        chunk = groups[pos:]
+        flat = [e for g in chunk for e in g]
+        tp = os.path.join(ctx.work, "trace-%s.ndjson" % label)
+        write_ndjson(tp, flat)
+        tr = ctx.tlc_trace("Trace_LspSched", cfg, tp, name="trace-%s-%d" % (label, pos), count=False)
+        starts, n = [], 0
+        for g in chunk:
+            starts.append(n + 1)
+            n += len(g)
 
-            def sched_at(line):
-                k = 0
-                while k + 1 < len(starts) and starts[k + 1] <= line:
-                    k += 1
-                return chunk[k][0]["id"]
+        def sched_at(line):
+            k = 0
+            while k + 1 < len(starts) and starts[k + 1] <= line:
+                k += 1
+            return chunk[k][0]["id"]
 
-            if tr.violated is None:
-                for p in tr.printed("PROP"):
-                    props.append((sched_at(p["l"]), p))
-                ok_scheds += len(chunk)
-                ok_events += len(flat)
-                break
-            k = tr.first_unmatched()
-            if tr.violated != "postcondition" or k is None:
-                raise ToolError("trace validation failed unexpectedly (%s); see %s" % (tr.violated, tp))
-            bad_id = sched_at(k)
-            gi = [g[0]["id"] for g in chunk].index(bad_id)
-            for p in tr.printed("PROP"):
-                if p["l"] < starts[gi]:
-                    props.append((sched_at(p["l"]), p))
-            ok_scheds += gi
-            ok_events += starts[gi] - 1
-            bad_event = flat[k - 1]
-            mm = [l for l in tr.out.splitlines() if '"MISMATCH"' in l]
-            ctx.report("conformance:%s:%s@%s" % (conf_name(c), bad_event.get("thr", bad_event["ev"]), bad_event.get("point", "")),
-                       "the real server left the model at event %d of schedule %s: %s" % (
-                           k - starts[gi] + 1, bad_id, json.dumps(bad_event)[:400]),
-                       {"schedule": by_id.get(bad_id), "observed": chunk[gi], "model_says": mm[-1:] if mm else None,
-                        "config": c})
-            pos += gi + 1
+        if tr.violated is None:
+            props += [(sched_at(p["l"]), p) for p in tr.printed("PROP")]
+            ok_scheds += len(chunk)
+            ok_events += len(flat)
+            break
+        k = tr.first_unmatched()
+        if tr.violated != "postcondition" or k is None:
+            raise ToolError("trace validation failed unexpectedly (%s); see %s" % (tr.violated, tp))
+        bad_id = sched_at(k)
+        gi = [g[0]["id"] for g in chunk].index(bad_id)
+        props += [(sched_at(p["l"]), p) for p in tr.printed("PROP") if p["l"] < starts[gi]]
+        ok_scheds += gi
+        ok_events += starts[gi] - 1
+        bad_event = flat[k - 1]
+        mm = [l for l in tr.out.splitlines() if '"MISMATCH"' in l]
+        ctx.report("conformance:%s:%s@%s" % (conf_name(c), bad_event.get("thr", bad_event["ev"]), bad_event.get("point", "")),
+                   "the real server left the model at event %d of schedule %s: %s" % (
+                       k - starts[gi] + 1, bad_id, json.dumps(bad_event)[:400]),
+                   {"schedule": by_id.get(bad_id), "observed": chunk[gi], "model_says": mm[-1:] if mm else None,
+                    "config": c})
+        pos += gi + 1
     return ok_scheds, ok_events, props
 
 
@@ -288,8 +286,13 @@ def number(scheds, prefix):
     return [{"id": "%s-%d" % (prefix, i), "steps": s} for i, s in enumerate(scheds)]
 
 
+def cname(t):
+    return "c%ds%dw%d" % t
+
+
 # ------------------------------------------------------------------------------------ the check
 def run(ctx):
+    import concurrent.futures, threading
     m = measure(ctx)
     flags, full, cached = m["flags"], m["full"], m["cached"]
     log("[C24] measured: W.check points / abort tails of a full compilation %s, of a cached one %s; protocol variant %s" % (full, cached, flags))
@@ -297,17 +300,23 @@ def run(ctx):
              if k.get("kind") == "known" and k.get("property") == "C24" and k.get("match") in ALL_MECHS]
     abs_full, abs_cached = [1, 1, 0], [1, 0]
     invs = STRUCT_INVS + ["NoHangButKnown", "NoLostEditButKnown", "NoDefectEvent"]
+    lock = threading.Lock()
     reported_mech = set()
     cex_scheds = []
+    results = {}
 
-    def model_check(c, name, coverage=False, liveness=False):
+    def model_check(c, name, coverage=False, liveness=False, workers=2):
         """Exhaustive check of one configuration; every counterexample is classified and reported."""
-        # mechanisms already reported in a smaller configuration are not searched for again
-        c = dict(c, known=tuple(sorted(set(c["known"]) | reported_mech)))
+        with lock:
+            # mechanisms already reported in another configuration are not searched for again
+            c = dict(c, known=tuple(sorted(set(c["known"]) | reported_mech)))
         cfg = write_cfg(ctx, "mc-" + name, cfg_text(c, "FairSpec" if liveness else "Spec", invariants=invs,
                                                     properties=["EveryWaiterReturns"] if liveness else ()))
-        r = ctx.tlc("LspSched", cfg, workers=4, coverage=coverage, name="mc-" + name, timeout=1700)
-        if r.violated and r.violated != "temporal":
+        r = ctx.tlc("LspSched", cfg, workers=workers, coverage=coverage, name="mc-" + name, timeout=1700)
+        results[name] = r
+        if r.violated == "temporal":
+            ctx.report("liveness:" + name, "EveryWaiterReturns violated under weak fairness", {"tlc": r.counterexample()[:6000], "config": c})
+        elif r.violated:
             # classify: rerun with the schedule-carrying spec; accept each mechanism found and look for the next
             found_any = False
             for inv in ("CexNoHang", "CexNoLostEdit"):
@@ -329,8 +338,10 @@ def run(ctx):
                     if key in accepted:
                         raise ToolError("counterexample search loops on mechanism %s" % key)
                     accepted.add(key)
-                    if key not in reported_mech:
+                    with lock:
+                        fresh = key not in reported_mech
                         reported_mech.add(key)
+                    if fresh:
                         sid = "cex-%s-%s" % (name, key)
                         if (cc["full"], cc["cached"]) == (full, cached):
                             cex_scheds.append(({"id": sid, "steps": rec["steps"]}, cc))
@@ -343,48 +354,84 @@ def run(ctx):
                            {"tlc": r.counterexample()[:6000], "config": c})
         return r
 
-    # ---- 2. exhaustive model checking of the protocol variant the tree implements
-    mc_list = [(0, 0, 1), (1, 0, 1), (2, 0, 1), (0, 1, 1), (1, 1, 1)]
+    def vacuity(want, fl, inv, t):
+        c = conf(t[0], t[1], t[2], abs_full, abs_cached, fl, ())
+        ccfg = write_cfg(ctx, "vac-" + want, cfg_text(c, "HistSpec", invariants=[inv], view="View"))
+        rc = ctx.tlc("MC_LspSched", ccfg, workers=1, name="vac-" + want, count=False, timeout=900)
+        return want, fl, [x["mech"] for x in rc.printed("CEX")]
+
+    def edge_pool(t):
+        c = conf(t[0], t[1], t[2], full, cached, flags, known)
+        init, edges, _ = edge_graph(ctx, c, cname(t))
+        return (cname(t), c, number(covering_schedules(init, edges), "e-" + cname(t)), len(edges))
+
+    def sim_pool(t, seed, num):
+        c = conf(t[0], t[1], t[2], full, cached, flags, known)
+        return ("sim-" + cname(t), c, number(simulated_schedules(ctx, c, cname(t), num, 400, seed), "s-" + cname(t)), 0)
+
+    # ---- 2./3. TLC jobs (independent of each other; a few run side by side, <= 6 TLC workers in total)
+    if ctx.quick:
+        mc_list = [(0, 0, 1), (1, 0, 1), (1, 1, 1)]
+        real_list = [(0, 0, 1)]
+        live_list = [(1, 0, 1)]
+        edge_list = [(0, 0, 1)]
+        sim_list = [((2, 1, 1), 11, 40)]
+    else:
+        mc_list = [(0, 0, 1), (1, 0, 1), (2, 0, 1), (3, 0, 1), (0, 1, 1), (1, 1, 1), (2, 1, 1), (1, 0, 2), (2, 0, 2), (0, 1, 2)]
+        real_list = [(0, 0, 1), (1, 0, 1), (2, 0, 1), (0, 1, 1), (1, 1, 1)]
+        live_list = [(0, 0, 1), (1, 0, 1), (2, 0, 1), (0, 1, 1), (1, 1, 1)]
+        edge_list = [(0, 0, 1), (1, 0, 1), (0, 1, 1)]
+        sim_list = [((1, 1, 1), 11, 150), ((2, 1, 1), 12, 200), ((3, 1, 2), 13, 200), ((2, 0, 2), 14, 100)]
+    vac_list = [
+        ("lost-wakeup", dict(FixNotify=False, FixOpen=False, FixClear=False, FixSave=False), "CexNoHang", (0, 0, 1)),
+        ("late-open-store", dict(FixNotify=True, FixOpen=False, FixClear=False, FixSave=False), "CexNoHang", (0, 0, 1)),
+        ("stale-retrigger", dict(FixNotify=True, FixOpen=True, FixClear=False, FixSave=False), "CexNoLostEdit", (1, 0, 1))]
     if not ctx.quick:
-        mc_list += [(3, 0, 1), (2, 1, 1), (1, 0, 2), (2, 0, 2), (1, 1, 2)]
+        vac_list.append(("cached-save-supersedes-change", dict(FixNotify=True, FixOpen=True, FixClear=True, FixSave=False),
+                         "CexNoLostEdit", (1, 1, 1)))
+    jobs = []
+    with concurrent.futures.ThreadPoolExecutor(max_workers=3) as ex:
+        for t in mc_list:
+            jobs.append(("mc", t, ex.submit(model_check, conf(t[0], t[1], t[2], abs_full, abs_cached, flags, known), cname(t),
+                                            t == (1, 1, 1))))
+        for t in real_list:
+            jobs.append(("real", t, ex.submit(model_check, conf(t[0], t[1], t[2], full, cached, flags, known), "real-" + cname(t))))
+        for t in live_list:
+            jobs.append(("live", t, ex.submit(model_check, conf(t[0], t[1], t[2], abs_full, abs_cached, flags, known),
+                                              "live-" + cname(t), False, True)))
+        for v in vac_list:
+            jobs.append(("vac", v[0], ex.submit(vacuity, *v)))
+        for t in edge_list:
+            jobs.append(("edge", t, ex.submit(edge_pool, t)))
+        for (t, sd, num) in sim_list:
+            jobs.append(("sim", t, ex.submit(sim_pool, t, sd, num)))
+        done = [(k, t, f.result()) for (k, t, f) in jobs]      # re-raises ToolError
     cov = None
-    for (ch, sv, wt) in mc_list:
-        c = conf(ch, sv, wt, abs_full, abs_cached, flags, known)
-        r = model_check(c, "c%ds%dw%d" % (ch, sv, wt), coverage=(ch, sv, wt) == (1, 1, 1))
-        if (ch, sv, wt) == (1, 1, 1) and r.violated is None:
-            cov = r.coverage_actions()
-    # real constants, liveness
-    real_list = [(0, 0, 1), (1, 0, 1)] if ctx.quick else [(0, 0, 1), (1, 0, 1), (2, 0, 1), (0, 1, 1), (1, 1, 1)]
-    for (ch, sv, wt) in real_list:
-        model_check(conf(ch, sv, wt, full, cached, flags, known), "real-c%ds%dw%d" % (ch, sv, wt))
-    live_list = [(0, 0, 1), (1, 0, 1)] if ctx.quick else [(0, 0, 1), (1, 0, 1), (2, 0, 1), (1, 1, 1)]
-    if not reported_mech:  # liveness is only meaningful where the safety properties hold
-        for (ch, sv, wt) in live_list:
-            r = model_check(conf(ch, sv, wt, abs_full, abs_cached, flags, known), "live-c%ds%dw%d" % (ch, sv, wt), liveness=True)
-            if r.violated == "temporal":
-                ctx.report("liveness:c%ds%dw%d" % (ch, sv, wt), "EveryWaiterReturns violated under weak fairness",
-                           {"tlc": r.counterexample()[:6000]})
-    if cov is not None:
-        dead = [a for a, (d, t) in cov.items() if t == 0]
-        expect_dead = set()
-        if flags["FixOpen"]:
-            expect_dead.add("HOpenSet")
-        else:
-            expect_dead.add("HSetCompiling")
+    r111 = results.get(cname((1, 1, 1)))
+    if r111 is not None and r111.violated is None:
+        cov = r111.coverage_actions()
+        dead = [a for a, (d, n) in cov.items() if n == 0]
+        expect_dead = {"HOpenSet" if flags["FixOpen"] else "HSetCompiling"}
         if not flags["FixClear"]:
             expect_dead.add("WPickupClear")
         really_dead = [a for a in dead if a not in expect_dead]
-        if really_dead:
+        if really_dead or not cov:
             raise ToolError("vacuity: actions never taken in c1s1w1: %s" % really_dead)
+    vac = {}
+    for k, t, res in done:
+        if k == "vac":
+            want, fl, got = res
+            vac[want] = got
+            if got != [want]:
+                raise ToolError("vacuity: the as-written variant %s no longer exhibits %s (got %s)" % (fl, want, got))
 
-    # ---- known mechanisms must still be reachable to be announced (strict run)
+    # ---- known mechanisms are announced only while the model still exhibits them
     for k in known:
         if k in reported_mech:
             continue
-        c = conf(1, 1, 1, full, cached, flags, ())
+        c = conf(1, 1, 1, full, cached, flags, tuple(x for x in ALL_MECHS if x != k))
         for inv in ("CexNoHang", "CexNoLostEdit"):
-            ccfg = write_cfg(ctx, "known-%s-%s" % (k, inv), cfg_text(dict(c, known=tuple(x for x in ALL_MECHS if x != k)),
-                                                               "HistSpec", invariants=[inv], view="View"))
+            ccfg = write_cfg(ctx, "known-%s-%s" % (k, inv), cfg_text(c, "HistSpec", invariants=[inv], view="View"))
             rc = ctx.tlc("MC_LspSched", ccfg, workers=2, name="known-%s-%s" % (k, inv), count=False, timeout=1700)
             for rec in rc.printed("CEX"):
                 if rec["mech"] == k and k not in reported_mech:
@@ -393,55 +440,21 @@ def run(ctx):
                     cex_scheds.append(({"id": sid, "steps": rec["steps"]}, c))
                     ctx.report(k, "%s: mechanism %s" % (rec["inv"], k), {"schedule": {"id": sid, "steps": rec["steps"]}, "config": c})
 
-    # ---- 3. anti-vacuity: the as-written variants violate the properties in the model
-    vac = {}
-    for want, fl, inv, (ch, sv, wt) in (
-            ("lost-wakeup", dict(FixNotify=False, FixOpen=False, FixClear=False, FixSave=False), "CexNoHang", (0, 0, 1)),
-            ("late-open-store", dict(FixNotify=True, FixOpen=False, FixClear=False, FixSave=False), "CexNoHang", (0, 0, 1)),
-            ("stale-retrigger", dict(FixNotify=True, FixOpen=True, FixClear=False, FixSave=False), "CexNoLostEdit", (1, 0, 1)),
-            ("cached-save-supersedes-change", dict(FixNotify=True, FixOpen=True, FixClear=True, FixSave=False), "CexNoLostEdit", (1, 1, 1))):
-        c = conf(ch, sv, wt, abs_full, abs_cached, fl, ())
-        ccfg = write_cfg(ctx, "vac-" + want, cfg_text(c, "HistSpec", invariants=[inv], view="View"))
-        rc = ctx.tlc("MC_LspSched", ccfg, workers=1, name="vac-" + want, count=False, timeout=600)
-        got = [x["mech"] for x in rc.printed("CEX")]
-        vac[want] = got
-        if got != [want]:
-            raise ToolError("vacuity: the as-written variant %s no longer exhibits %s (got %s)" % (fl, want, got))
-
-    # ---- 4. spec -> impl
-    pools = []   # (label, config, schedules)
-    c0 = conf(0, 0, 1, full, cached, flags, known)
-    init, edges, er = edge_graph(ctx, c0, "c0s0w1")
-    s0 = number(covering_schedules(init, edges), "e-c0s0w1")
-    pools.append(("c0s0w1", c0, s0, len(edges)))
-    edge_cfgs = [(1, 0, 1), (0, 1, 1)] if not ctx.quick else []
-    for (ch, sv, wt) in edge_cfgs:
-        c = conf(ch, sv, wt, full, cached, flags, known)
-        i2, e2, _ = edge_graph(ctx, c, "c%ds%dw%d" % (ch, sv, wt))
-        pools.append(("c%ds%dw%d" % (ch, sv, wt), c, number(covering_schedules(i2, e2), "e-c%ds%dw%d" % (ch, sv, wt)), len(e2)))
-    sim = []
-    sim_cfgs = [((2, 1, 1), 11, 40)] if ctx.quick else [((1, 1, 1), 11, 150), ((2, 1, 1), 12, 200), ((3, 1, 2), 13, 200), ((2, 0, 2), 14, 100)]
-    for (ch, sv, wt), sd, num in sim_cfgs:
-        c = conf(ch, sv, wt, full, cached, flags, known)
-        nm = "c%ds%dw%d" % (ch, sv, wt)
-        sim.append(("sim-" + nm, c, number(simulated_schedules(ctx, c, nm, num, 400, sd), "s-%s" % nm), 0))
-    total_s, total_e, samples, all_props = 0, 0, [], []
-    per_pool = {}
-    for label, c, scheds, nedges in pools + sim:
-        pick = scheds
-        if ctx.quick and label == "c0s0w1":
-            pick = slice_for_seed(scheds, ctx.seed, 60)
-        a, b, props = replay_and_validate(ctx, pick, c, label)
-        per_pool[label] = {"schedules_in_pool": len(scheds), "replayed": len(pick), "accepted": a,
-                           "events_accepted": b, "edges": nedges}
-        total_s += a
-        total_e += b
-        all_props += props
+    # ---- 4. spec -> impl: one batch of schedules on the real server, one trace validation
+    pools = [res for k, t, res in done if k in ("edge", "sim")]
+    per_pool, batch, samples = {}, [], []
+    for label, c, scheds, nedges in pools:
+        pick = slice_for_seed(scheds, ctx.seed, 30) if ctx.quick else scheds
+        per_pool[label] = {"schedules_in_pool": len(scheds), "replayed": len(pick), "transitions_of_the_state_graph": nedges,
+                           "steps": sum(len(s["steps"]) for s in pick)}
+        batch += pick
         if pick:
             samples.append({"pool": label, "id": pick[0]["id"], "steps": [[s["thr"], s["point"]] for s in pick[0]["steps"]][:60]})
+    c_any = conf(0, 0, 1, full, cached, flags, known)
+    total_s, total_e, all_props = replay_and_validate(ctx, batch, c_any, "pool")
     # counterexample schedules of step 2 are replayed on the real server as well
     for sch, c in cex_scheds:
-        a, b, props = replay_and_validate(ctx, [sch], dict(c, full=c["full"], cached=c["cached"]), sch["id"], shards=1)
+        a, b, props = replay_and_validate(ctx, [sch], c, sch["id"], shards=1)
         total_s += a
         total_e += b
         all_props += props
@@ -457,43 +470,36 @@ def run(ctx):
 
     # ---- binding self-test: a corrupted observation must be rejected by the trace spec
     selftest = None
-    if not ctx.quick or True:
-        tp = None
-        for fn in sorted(os.listdir(ctx.work)):
-            if fn.startswith("trace-c0s0w1-") and fn.endswith(".ndjson"):
-                tp = os.path.join(ctx.work, fn)
+    tp = os.path.join(ctx.work, "trace-pool.ndjson")
+    if os.path.exists(tp):
+        first = []
+        for e in read_ndjson(tp):
+            if e["ev"] == "Reset" and first:
                 break
-        if tp:
-            ev = read_ndjson(tp)
-            # keep the first schedule only, flip is_compiling in the observation of its W.setCompiling step
-            first = []
-            for e in ev:
-                if e["ev"] == "Reset" and first:
-                    break
-                first.append(e)
-            idx = [i for i, e in enumerate(first) if e["ev"] == "Step" and e["point"] == "W.setCompiling"]
-            if idx:
-                bad = json.loads(json.dumps(first))
-                bad[idx[0]]["obs"]["ic"] = not bad[idx[0]]["obs"]["ic"]
-                bp = os.path.join(ctx.work, "selftest-corrupt.ndjson")
-                write_ndjson(bp, bad)
-                tc = dict(c0)
-                tc.update(changes=3, saves=1, waiters=2)
-                cfg = write_cfg(ctx, "trace-selftest", cfg_text(tc, "TraceSpec", postcondition="Accepted"))
-                tr = ctx.tlc_trace("Trace_LspSched", cfg, bp, name="trace-selftest", count=False)
-                if tr.violated != "postcondition" or tr.first_unmatched() != idx[0] + 1:
-                    raise ToolError("binding self-test: corrupted observation was not rejected at event %d (got %s / %s)" % (
-                        idx[0] + 1, tr.violated, tr.first_unmatched()))
-                selftest = {"corrupted_event": idx[0] + 1, "rejected_at": tr.first_unmatched()}
+            first.append(e)
+        idx = [i for i, e in enumerate(first) if e["ev"] == "Step" and e["point"] == "W.setCompiling"]
+        if idx:
+            bad = json.loads(json.dumps(first))
+            bad[idx[0]]["obs"]["rt"] = not bad[idx[0]]["obs"]["rt"]
+            bp = os.path.join(ctx.work, "selftest-corrupt.ndjson")
+            write_ndjson(bp, bad)
+            tc = dict(c_any)
+            tc.update(changes=3, saves=1, waiters=2)
+            cfg = write_cfg(ctx, "trace-selftest", cfg_text(tc, "TraceSpec", postcondition="Accepted"))
+            tr = ctx.tlc_trace("Trace_LspSched", cfg, bp, name="trace-selftest", count=False)
+            if tr.violated != "postcondition" or tr.first_unmatched() != idx[0] + 1:
+                raise ToolError("binding self-test: corrupted observation was not rejected at event %d (got %s / %s)" % (
+                    idx[0] + 1, tr.violated, tr.first_unmatched()))
+            selftest = {"corrupted_event": idx[0] + 1, "field": "obs.rt", "rejected_at": tr.first_unmatched()}
 
     return ctx.finish("model_checking", {
         "traces_validated_against_impl": total_s,
         "trace_events_validated": total_e,
         "exhaustive": True,
-        "constants": {"ChecksFull_measured": full, "ChecksCached_measured": cached, "abstract_checks": [abs_full, abs_cached],
+        "constants": {"TailFull_measured": full, "TailCached_measured": cached, "abstract_tails": [abs_full, abs_cached],
                       "protocol_variant": flags, "known_mechanisms": known},
-        "configurations_model_checked": ["c%ds%dw%d" % x for x in mc_list] + ["real-c%ds%dw%d" % x for x in real_list]
-                                        + ["live-c%ds%dw%d" % x for x in live_list],
+        "configurations_model_checked": [cname(t) for t in mc_list] + ["real-" + cname(t) for t in real_list]
+                                        + ["live-" + cname(t) for t in live_list],
         "replay_pools": per_pool,
         "anti_vacuity_as_written_variants": vac,
         "binding_selftest": selftest,
@@ -504,9 +510,9 @@ def run(ctx):
         "the harness runs each handler on its own OS thread and enforces this through the schedule",
         "the prefix of a handler up to its first step point (workspace sync, document write) is one atomic step and handlers "
         "start in client order (didOpen first, didChange in version order)",
-        "a thread blocked at the step point before rx.recv() / before polling Notified stands for a thread blocked in the call",
+        "a thread held at the step point before rx.recv() / before polling Notified stands for a thread blocked in the call",
         "compilations of the tiny std-less workspace succeed; a full compilation passes %d W.check points, a cached one %d" % (len(full), len(cached)),
-        "bounds: 1 didOpen, <=3 didChange, <=1 didSave, <=2 waiting requests",
+        "bounds: 1 didOpen, <=3 didChange, <=1 didSave (<=2 in the model), <=2 waiting requests",
     ])
 
 
@@ -516,7 +522,7 @@ def replay(path):
     rp = v.get("replay") or {}
     sch, c = rp.get("schedule"), rp.get("config")
     print("property=C24 key=%s\n%s" % (v.get("key"), v.get("what")))
-    if not sch or not c or not sch.get("steps"):
+    if not isinstance(sch, dict) or not c or not sch.get("steps"):
         print(json.dumps(rp, indent=1)[:20000])
         return 0
     ctx = Ctx("C24-replay", "quick", 0)
